@@ -688,7 +688,7 @@ func (c *ctx) evalRange(cl *RangeClaim, pending *batch, rcfg, id string) {
 	// ONE node object for both; trie2 links that object under both parents and then mutates it
 	// (unsetInternal), which shows as a panic, a rejected honest proof or an accepted gap
 	sigKind := cl.Kind
-	if impl == "trie2" && proofSharesNode(cl.Proof) {
+	if impl == "trie2" && proofSharesNode(cl.Proof) && !strings.HasSuffix(cl.Kind, "value-equals-node-hash") {
 		sigKind = "identical-subtrees-share-one-node-object"
 	}
 	switch {
